@@ -1,5 +1,6 @@
 import AlgoVerif.Common
 import AlgoVerif.Generated.Consts
+import AlgoVerif.Generated.C02
 /-!
 # Model of the four hash tables of `symboltable/` (properties C02 and C03)
 
@@ -57,8 +58,10 @@ def depth : Nat := 64
 
 /-! ## `hash_table.go` -/
 
-/-- `h ^= (h >> 20) ^ (h >> 12) ^ (h >> 7) ^ (h >> 4)` -/
-def mix (h : UInt64) : UInt64 := h ^^^ ((h >>> 20) ^^^ (h >>> 12) ^^^ (h >>> 7) ^^^ (h >>> 4))
+/-- `h ^= (h >> 20) ^ (h >> 12) ^ (h >> 7) ^ (h >> 4)`; the shift amounts are regenerated from the source
+(`Generated/C02.lean`, where they are also checked to be the same in the four table files) -/
+def mix (h : UInt64) : UInt64 :=
+  h ^^^ (symboltable_mixShifts.foldl (fun acc s => acc ^^^ (h >>> UInt64.ofNat s)) 0)
 
 /-- `for b != 0 { a, b = b, a%b }` -/
 def gcdLoop : Nat → Nat → Nat → Nat
@@ -72,9 +75,8 @@ def gcdGo (a b : Nat) : Nat := gcdLoop (min a b + 1) (max a b) (min a b)
 /-- `isPowerOf2`: `n&(n-1) == 0` -/
 def isPowerOf2 (n : Nat) : Bool := n &&& (n - 1) == 0
 
-/-- the primes below 100 listed in `isPrime` -/
-def smallPrimes : List Nat :=
-  [2, 3, 5, 7, 11, 13, 17, 19, 23, 29, 31, 37, 41, 43, 47, 53, 59, 61, 67, 71, 73, 79, 83, 89, 97]
+/-- the primes below 100 listed in `isPrime` (regenerated from the source, `Generated/C02.lean`) -/
+def smallPrimes : List Nat := symboltable_isPrime_small
 
 /-- `for i := 2; i*i <= n; i++ { if n%i == 0 { return false } }; return true` (fuel `n` is enough) -/
 def isPrimeLoop (n : Nat) : Nat → Nat → Bool
@@ -84,7 +86,7 @@ def isPrimeLoop (n : Nat) : Nat → Nat → Bool
 def isPrime (n : Nat) : Bool :=
   if n ≤ 1 then false
   else if smallPrimes.contains n then true
-  else if n ≤ 100 then false
+  else if n ≤ symboltable_isPrime_smallBound then false
   else isPrimeLoop n n 2
 
 /-- `for p := n; p >= 2; p-- { if isPrime(p) { return p } }; return -1` -/
